@@ -151,7 +151,7 @@ func main() {
 	}
 	cfg := &packages.Config{
 		Mode: packages.NeedName | packages.NeedFiles | packages.NeedCompiledGoFiles | packages.NeedSyntax |
-			packages.NeedTypes | packages.NeedTypesInfo | packages.NeedImports | packages.NeedDeps | packages.NeedTypesSizes,
+			packages.NeedTypes | packages.NeedTypesInfo | packages.NeedImports | packages.NeedDeps | packages.NeedTypesSizes | packages.NeedModule,
 		Dir:        *repo,
 		Overlay:    ov,
 		BuildFlags: []string{"-modfile=" + modfile},
@@ -205,6 +205,39 @@ func main() {
 			f.Comments = nil
 			var buf bytes.Buffer
 			must((&printer.Config{Mode: printer.UseSpaces | printer.TabIndent, Tabwidth: 8}).Fprint(&buf, p.Fset, f))
+			if isExt[p.PkgPath] {
+				// third-party module: files beneath GOMODCACHE cannot be overlaid; work on a
+				// copy of the module that replaces it in the scratch go.mod
+				if p.Module == nil || p.Module.Dir == "" {
+					fatal("no module information for " + p.PkgPath)
+				}
+				copyDir := filepath.Join(*out, "ext", strings.ReplaceAll(p.Module.Path, "/", "_"))
+				if !extCopied[p.Module.Path] {
+					extCopied[p.Module.Path] = true
+					must(copyTree(p.Module.Dir, copyDir))
+					// the inserted helpers use generics: make sure the copy's language version allows them
+					gmPath := filepath.Join(copyDir, "go.mod")
+					gmb, err := os.ReadFile(gmPath)
+					if err != nil {
+						gmb = []byte("module " + p.Module.Path + "\n")
+					}
+					var lines []string
+					for _, l := range strings.Split(string(gmb), "\n") {
+						if strings.HasPrefix(l, "go ") || strings.HasPrefix(l, "toolchain ") {
+							continue
+						}
+						lines = append(lines, l)
+					}
+					lines = append(lines, "go 1.21")
+					must(os.WriteFile(gmPath, []byte(strings.Join(lines, "\n")+"\n"), 0o644))
+					extReplace = append(extReplace, fmt.Sprintf("replace %s => %s\n", p.Module.Path, copyDir))
+				}
+				rel, err := filepath.Rel(p.Module.Dir, fname)
+				must(err)
+				must(os.WriteFile(filepath.Join(copyDir, rel), buf.Bytes(), 0o644))
+				st.Files++
+				continue
+			}
 			// the key in the overlay must be the path the go command sees
 			dstKey := fname
 			outPath := filepath.Join(srcOut, strings.ReplaceAll(strings.TrimPrefix(fname, "/"), "@", "_at_"))
@@ -229,12 +262,41 @@ func main() {
 			overlay[filepath.Join(dir, "zz_verifsim_reinit.go")] = outPath
 		}
 	}
+	if len(extReplace) > 0 {
+		f, err := os.OpenFile(modfile, os.O_APPEND|os.O_WRONLY, 0o644)
+		must(err)
+		for _, l := range extReplace {
+			_, _ = f.WriteString(l)
+		}
+		must(f.Close())
+	}
 	sort.Strings(st.ReinitSkipped)
 	sort.Strings(st.UncontrolledSites)
 	ovj, _ := json.MarshalIndent(map[string]any{"Replace": overlay}, "", " ")
 	must(os.WriteFile(filepath.Join(*out, "overlay.json"), ovj, 0o644))
 	sj, _ := json.MarshalIndent(st, "", " ")
 	must(os.WriteFile(filepath.Join(*out, "simify-stats.json"), sj, 0o644))
+}
+
+var extCopied = map[string]bool{}
+var extReplace []string
+
+func copyTree(src, dst string) error {
+	return filepath.WalkDir(src, func(path string, d os.DirEntry, err error) error {
+		if err != nil {
+			return err
+		}
+		rel, _ := filepath.Rel(src, path)
+		target := filepath.Join(dst, rel)
+		if d.IsDir() {
+			return os.MkdirAll(target, 0o755)
+		}
+		b, err := os.ReadFile(path)
+		if err != nil {
+			return err
+		}
+		return os.WriteFile(target, b, 0o644)
+	})
 }
 
 func pkgNameGuess(dir, def string) string {
@@ -406,8 +468,11 @@ func (r *rewriter) post(c *astutil.Cursor) bool {
 		}
 	case *ast.SendStmt:
 		if !r.skip[n] {
-			st.Send++
-			c.Replace(&ast.ExprStmt{X: r.rtCall("Send", r.site(n, "send"), n.Chan, n.Value)})
+			switch c.Parent().(type) {
+			case *ast.BlockStmt, *ast.CaseClause, *ast.CommClause, *ast.LabeledStmt:
+				st.Send++
+				c.Replace(&ast.BlockStmt{List: []ast.Stmt{n, &ast.ExprStmt{X: r.rtCall("Yield", r.site(n, "send"))}}})
+			}
 		}
 	case *ast.RangeStmt:
 		r.rewriteRange(c, n)
@@ -630,7 +695,8 @@ func (r *rewriter) rewriteSelect(c *astutil.Cursor, n *ast.SelectStmt) {
 			ci.val = r.tmp("x")
 			stmts = append(stmts, &ast.AssignStmt{Lhs: []ast.Expr{ci.ch}, Tok: token.DEFINE, Rhs: []ast.Expr{s.Chan}})
 			// typed temporary for the value: declare via a helper that fixes the type from the channel
-			stmts = append(stmts, &ast.AssignStmt{Lhs: []ast.Expr{ci.val}, Tok: token.DEFINE, Rhs: []ast.Expr{r.rtCall("SendVal", ci.ch, s.Value)}})
+			stmts = append(stmts, &ast.AssignStmt{Lhs: []ast.Expr{ci.val}, Tok: token.DEFINE, Rhs: []ast.Expr{r.rtCall("ZeroSend", ci.ch)}})
+			stmts = append(stmts, &ast.AssignStmt{Lhs: []ast.Expr{ci.val}, Tok: token.ASSIGN, Rhs: []ast.Expr{s.Value}})
 		case *ast.ExprStmt:
 			u := unparen(s.X).(*ast.UnaryExpr)
 			ci.ch = r.tmp("c")
